@@ -135,7 +135,14 @@ class GFFPrinter:
                 for e in model.exon_blocks:
                     exons_to_print.append((e[0], e[1], 'exon'))
                 exons_to_print = sorted(exons_to_print, reverse=True) if model.strand == '-' else sorted(exons_to_print)
-                for i, e in enumerate(exons_to_print):
+                # exons are numbered on their own; CDS, codons and UTRs carry the number of the (first) exon they lie in
+                ordered_exons = sorted(model.exon_blocks, reverse=model.strand == '-')
+                for e in exons_to_print:
+                    exon_number = 0
+                    for exon_index, exon in enumerate(ordered_exons):
+                        if exon[0] <= e[1] and e[0] <= exon[1]:
+                            exon_number = exon_index + 1
+                            break
                     exon_str_id = self.exon_id_storage.get_id(model.chr_id, e, model.strand)
 
                     exon_id = model.transcript_id + "_%d_%d_%s" % (e[0], e[1], model.strand)
@@ -144,7 +151,7 @@ class GFFPrinter:
                         exon_additiional_info = " " + gene_info.feature_attributes[model.transcript_id]
                     feature_type = e[2]
                     self.out_gff.write(prefix_columns + "%s\t%d\t%d\t" % (feature_type, e[0], e[1]) + suffix_columns +
-                                       ' exon_number "%d"; exon_id "%s"; %s\n' % ((i + 1), exon_str_id, exon_additiional_info))
+                                       ' exon_number "%d"; exon_id "%s"; %s\n' % (exon_number, exon_str_id, exon_additiional_info))
         self.out_gff.flush()
 
     def dump_read_assignments(self, transcript_model_constructor):
